@@ -540,6 +540,33 @@ Proof.
 Qed.
 Print Assumptions c08_index_cache_path_keyed_times_refuted.
 
+(* THE REMOTE BRANCH OF THE INDEX CACHE IS TRANSPARENT when the ETag names the bytes.
+   A remote index is stored once under cacheURL@ETag and handed to every later
+   request with that key; without an ETag it is fetched and parsed every time
+   (a Last-Modified header is not looked at).  For every parser and every history
+   of publications (path, ETag the server sends or none, bytes) and requests: each
+   request returns the parse of what the server holds at request time - provided
+   whatever is published at a path under an ETag e is ONE content (content_of). *)
+Theorem c08_remote_index_cache_fresh : forall (C I E : Type) (E_eqb : E -> E -> bool),
+  (forall a b, E_eqb a b = true <-> a = b) ->
+  forall (parse : ekey -> C -> option I) (content_of : nat -> E -> C) evs,
+    etags_name_bytes content_of evs ->
+    rc_run E_eqb parse [] rc_empty evs = rfresh_run parse [] evs.
+Proof. exact rc_fresh. Qed.
+Print Assumptions c08_remote_index_cache_fresh.
+
+(* [refuted] NON-VACUITY: a version header that does not name the bytes used as the key - the
+   Last-Modified second, under which two publications inside one second look alike:
+   the second request gets the first publication; sent as what it is (no ETag)
+   nothing is cached (third conjunct) *)
+Theorem c08_remote_index_cache_version_by_second_refuted :
+  let evs : list (rev string string) := [RPublish 0 (Some "t10") "v1"; RGet (w_key ""); RPublish 0 (Some "t10") "v2"; RGet (w_key "")] in
+  let evs' : list (rev string string) := [RPublish 0 None "v1"; RGet (w_key ""); RPublish 0 None "v2"; RGet (w_key "")] in
+  rc_run String.eqb w_parse [] rc_empty evs <> @rfresh_run string _ string w_parse [] evs /\
+  rc_run String.eqb w_parse [] rc_empty evs' = @rfresh_run string _ string w_parse [] evs'.
+Proof. cbn zeta. split; [vm_compute; discriminate | vm_compute; reflexivity]. Qed.
+Print Assumptions c08_remote_index_cache_version_by_second_refuted.
+
 (* THE INDEX LIST HAS THE ORDER OF THE REPOSITORY LINES UNDER EVERY SCHEDULE.
    GetRepositoryIndexes starts one goroutine per line; whatever the order in
    which they run (local branch: take the cache's mutex), the list returned is
